@@ -166,8 +166,8 @@ def scenarios(ctx):
         init = (('connect', 0, clean, 0, ver), ('connack', 0, 0, False))
         out.append(Scn('%s-%s-v%d' % (profile, 'clean' if clean else 'persist', ver), profile=profile, init=init,
                        connects=[(clean, 0, ver)], reconnects=[(False, 0, ver), (True, 0, ver)],
-                       inpubs=INPUBS, inrels=((1,), (2,), (3,)), closing=False,
-                       budgets=dict(inpub=4 if q else 5, inrel=3 if q else 4, raw=1, lose=2, rebuild=2, connect=2, connack=2)))
+                       inpubs=INPUBS, inrels=((1,), (2,), (3,), (1, True)), closing=False,
+                       budgets=dict(inpub=4 if q else 5, inrel=3 if q else 4, raw=1, lose=2, rebuild=2, connect=2, connack=2, badconnect=1)))
     return out
 
 
